@@ -19,7 +19,9 @@ structure Bus where
   recv : List (Cid × Topic × Int) := []
   deriving Repr
 
-abbrev Handler := Cid → Int → List (Topic × Int)
+/-- what consumer `k` publishes when it is handed value `v` that arrived on topic `T`
+(tickit messages identify their origin, so a handler's reaction may depend on it) -/
+abbrev Handler := Cid → Topic → Int → List (Topic × Int)
 
 def Bus.log (b : Bus) (T : Topic) : List Int := agetD b.topics T []
 def Bus.subsOf (b : Bus) (T : Topic) : List Cid := agetD b.subs T []
@@ -41,7 +43,7 @@ termination_by n _ _ ks _ => (n, 3, ks.length)
 def Bus.deliver (h : Handler) : Nat → Bus → Cid → Topic → Int → Bus
   | n, b, k, T, v =>
     let b' := { b with recv := b.recv ++ [(k, T, v)] }
-    Bus.pushAll h n (h k v) b'
+    Bus.pushAll h n (h k T v) b'
 termination_by n _ _ _ _ => (n, 2, 0)
 def Bus.pushAll (h : Handler) : Nat → List (Topic × Int) → Bus → Bus
   | _, [], b => b
